@@ -137,7 +137,7 @@ def single(rng, builder, dtype="int8", ifm=(1, 8, 8, 4), post=None, neighbours=N
     """the operator built by `builder(b, x)` (a) alone on a fresh input, (b) between accelerated neighbours
     (1x1 CONV_2D / RELU -> X -> 1x1 CONV_2D / RELU), (c) next to operators that later passes may merge with it:
     X -> LUT activation / RELU-type activation / QUANTIZE / RESHAPE-like / ADD, MUL with a constant, PAD -> X.
-    `neighbours`: indices into NEIGHBOURS; default = `_STATE["per_case"]` of them in rotation (quick: 2, or `nbk` for the
+    `neighbours`: indices into NEIGHBOURS; default = `_STATE["per_case"]` of them in rotation (quick: 3, or `nbk` for the
     large sweeps; thorough: every kind)."""
     v = Variants()
     for suffix, embed in (("", False), (" [between NPU ops]", True)):
@@ -176,7 +176,7 @@ def _conv_net(rng, label, **kw):
 
 def cases(rng, thorough=False):
     out = []
-    _STATE["per_case"] = len(NEIGHBOURS) if thorough else 2
+    _STATE["per_case"] = len(NEIGHBOURS) if thorough else 3
     _STATE["ctr"] = rng.randrange(len(NEIGHBOURS))
 
     def add(label, net):
